@@ -1,0 +1,127 @@
+//go:build verif
+
+// Contracts for contract-based deductive verification (see /verif/DESIGN.md).
+// This file contains a package clause and comments only; it is compiled only
+// with the build tag `verif` and adds no executable code.
+//
+// Abstract view of a Container (the accessors in container_stash.go are the
+// trusted layer): ghost slice headers $arr / $runs / $bm name the storage the
+// accessors return; a write through the returned slice is a write to the
+// container.
+
+package roaring
+
+//@ ghost Container.$arr []uint16
+//@ ghost Container.$runs []interval16
+//@ ghost Container.$bm []uint64
+
+// ---- well-formedness and membership --------------------------------------
+
+//@ spec sorted16(a []uint16) = forall i, j :: 0 <= i && i < j && j < len(a) ==> a[i] < a[j]
+//@ spec sorted64(a []uint64) = forall i, j :: 0 <= i && i < j && j < len(a) ==> a[i] < a[j]
+//@ spec sortedRuns(r []interval16) = (forall i :: 0 <= i && i < len(r) ==> r[i].start <= r[i].last) && (forall i, j :: 0 <= i && i < j && j < len(r) ==> r[i].last < r[j].start)
+//@ spec memArr(a []uint16, v int) = exists i :: 0 <= i && i < len(a) && a[i] == v
+//@ spec memRuns(r []interval16, v int) = exists i :: 0 <= i && i < len(r) && r[i].start <= v && v <= r[i].last
+//@ spec memBm(b []uint64, v int) = bit(b[v / 64], v % 64)
+//@ spec isArr(c *Container) = c != nil && c.typeID == 1
+//@ spec isBm(c *Container) = c != nil && c.typeID == 2
+//@ spec isRun(c *Container) = c != nil && c.typeID == 3
+//@ spec wfArr(c *Container) = isArr(c) && sorted16(c.$arr) && len(c.$arr) <= 65536
+//@ spec wfRuns(c *Container) = isRun(c) && sortedRuns(c.$runs) && len(c.$runs) <= 32768
+//@ spec wfBm(c *Container) = isBm(c) && len(c.$bm) == 1024
+//@ spec wfT(c *Container) = wfArr(c) || wfRuns(c) || wfBm(c)
+//@ spec mem(c *Container, v int) = c != nil && ((c.typeID == 1 && memArr(c.$arr, v)) || (c.typeID == 2 && memBm(c.$bm, v)) || (c.typeID == 3 && memRuns(c.$runs, v)))
+//@ spec frozen(c *Container) = c == nil || (c.flags & 2) != 0
+//@ spec mapped(c *Container) = c != nil && (c.flags & 1) != 0
+
+// ---- trusted accessor layer (container_stash.go: unsafe slice headers) ----
+
+//@ contract (*Container).array trusted pure props C01,C03
+//@   requires c != nil
+//@   ensures result == c.$arr
+//@ contract (*Container).runs trusted pure props C01,C03
+//@   requires c != nil
+//@   ensures result == c.$runs
+//@ contract (*Container).bitmap trusted pure props C01,C03
+//@   requires c != nil
+//@   ensures result == c.$bm
+
+//@ contract (*Container).setArray trusted props C01,C03
+//@   requires c != nil
+//@   modifies c.$arr, c.n, c.len, c.cap, c.pointer, c.flags, c.data
+//@   ensures len(c.$arr) == len(array) && c.n == len(array)
+//@   ensures forall i :: 0 <= i && i < len(array) ==> c.$arr[i] == array[i]
+//@   ensures (c.$arr.ref == array.ref && c.$arr.off == array.off && array.ref != 0) || fresh(c.$arr)
+//@   ensures (c.flags & 2) == old(c.flags & 2)
+//@ contract (*Container).setRuns trusted props C01,C03
+//@   requires c != nil
+//@   modifies c.$runs, c.len, c.cap, c.pointer, c.flags, c.data
+//@   ensures len(c.$runs) == len(runs)
+//@   ensures forall i :: 0 <= i && i < len(runs) ==> c.$runs[i] == runs[i]
+//@   ensures (c.$runs.ref == runs.ref && c.$runs.off == runs.off && runs.ref != 0) || fresh(c.$runs)
+//@   ensures (c.flags & 2) == old(c.flags & 2)
+//@ contract (*Container).setBitmap trusted props C01,C03
+//@   requires c != nil && (c.flags & 2) == 0
+//@   modifies c.$bm, c.len, c.cap, c.pointer
+//@   ensures c.$bm == bitmap
+
+// ---- search ---------------------------------------------------------------
+
+//@ contract search32 props C01
+//@   requires sorted16(a) && len(a) <= 65536
+//@   ensures result >= 0 ==> result < len(a) && a[result] == value
+//@   ensures result < 0 ==> 0 <= -result-1 && -result-1 <= len(a)
+//@   ensures result < 0 ==> (forall k :: 0 <= k && k < -result-1 ==> a[k] < value)
+//@   ensures result < 0 ==> (forall k :: -result-1 <= k && k < len(a) ==> a[k] > value)
+//@   modifies nothing
+//@   loop 1 invariant 0 <= lo && lo <= hi + 1 && hi <= len(a) - 1 && n == len(a)
+//@   loop 1 invariant forall k :: 0 <= k && k < lo ==> a[k] < value
+//@   loop 1 invariant forall k :: hi < k && k < len(a) ==> a[k] > value
+//@   loop 1 decreases hi - lo + 1
+//@   loop 2 invariant 0 <= lo && lo <= hi + 1 && hi <= len(a) - 1
+//@   loop 2 invariant forall k :: 0 <= k && k < lo ==> a[k] < value
+//@   loop 2 invariant forall k :: hi < k && k < len(a) ==> a[k] > value
+//@   loop 2 decreases hi - lo + 1
+
+//@ contract search64 props C01,C02
+//@   requires sorted64(a) && len(a) <= 1073741824
+//@   ensures result >= 0 ==> result < len(a) && a[result] == value
+//@   ensures result < 0 ==> 0 <= -result-1 && -result-1 <= len(a)
+//@   ensures result < 0 ==> (forall k :: 0 <= k && k < -result-1 ==> a[k] < value)
+//@   ensures result < 0 ==> (forall k :: -result-1 <= k && k < len(a) ==> a[k] > value)
+//@   modifies nothing
+//@   loop 1 invariant 0 <= lo && lo <= hi + 1 && hi <= len(a) - 1 && n == len(a)
+//@   loop 1 invariant forall k :: 0 <= k && k < lo ==> a[k] < value
+//@   loop 1 invariant forall k :: hi < k && k < len(a) ==> a[k] > value
+//@   loop 1 decreases hi - lo + 1
+//@   loop 2 invariant 0 <= lo && lo <= hi + 1 && hi <= len(a) - 1
+//@   loop 2 invariant forall k :: 0 <= k && k < lo ==> a[k] < value
+//@   loop 2 invariant forall k :: hi < k && k < len(a) ==> a[k] > value
+//@   loop 2 decreases hi - lo + 1
+
+//@ contract binSearchRuns props C01
+//@   requires sortedRuns(a) && len(a) <= 32768
+//@   ensures 0 <= result0 && result0 <= len(a)
+//@   ensures result1 ==> result0 < len(a) && a[result0].start <= v && v <= a[result0].last
+//@   ensures !result1 ==> (forall k :: 0 <= k && k < result0 ==> a[k].last < v)
+//@   ensures !result1 ==> (forall k :: result0 <= k && k < len(a) ==> v < a[k].start)
+//@   modifies nothing
+
+// ---- membership -----------------------------------------------------------
+
+//@ contract (*Container).arrayContains props C01
+//@   requires wfArr(c)
+//@   ensures result <==> mem(c, v)
+//@   modifies nothing
+//@ contract (*Container).runContains props C01
+//@   requires wfRuns(c)
+//@   ensures result <==> mem(c, v)
+//@   modifies nothing
+//@ contract (*Container).bitmapContains props C01
+//@   requires wfBm(c)
+//@   ensures result <==> mem(c, v)
+//@   modifies nothing
+//@ contract (*Container).Contains props C01
+//@   requires c == nil || wfT(c)
+//@   ensures result <==> mem(c, v)
+//@   modifies nothing
